@@ -2,6 +2,7 @@ package main
 
 import (
 	"fmt"
+	"math/rand"
 	"strings"
 
 	"verif/harness/core"
@@ -449,7 +450,37 @@ func runC04(ctx *core.Ctx, idx int) *core.Result {
 	if idx < len(listKinds) {
 		forDotsCase(ctx, idx, res)
 	}
+	// the schema library's patterns with elisions (elisions on context lines reused on '+' lines, several
+	// elisions per line, elided parameter / result / field lists, nested statement elisions) on generated files
+	if idx < 400 {
+		dottedSchemaCase(ctx, idx, res)
+	}
 	return res
+}
+
+var dottedSchemas = func() []int {
+	var out []int
+	g := gen.NewG(rand.New(rand.NewSource(1)))
+	for i := range gen.Schemas {
+		if c := gen.Schemas[i].Gen(g); c != nil && c.HasDots() {
+			out = append(out, i)
+		}
+	}
+	return out
+}()
+
+func dottedSchemaCase(ctx *core.Ctx, idx int, res *core.Result) {
+	r := ctx.Rand("c04-schema", idx)
+	g := gen.NewG(r)
+	c := g.SchemaChange(dottedSchemas[idx%len(dottedSchemas)])
+	var srcs, extra []string
+	for f := 0; f < 4; f++ {
+		plants, kinds := g.InstancePlants(c, 1+r.Intn(4), r.Intn(2))
+		srcs = append(srcs, g.File(gen.FileOpts{Plants: plants}))
+		extra = append(extra, "schema:"+c.Schema+":"+strings.Join(kinds, ","))
+	}
+	res.Ob("schema-elision-cases", 1)
+	semBatch(ctx, idx, res, c, srcs, extra, idx%8 == 0, "C04")
 }
 
 var loopHeaders = []string{"", "cond()", "i := 0; i < n; i++", "; i < n;", "i := 0; ; i++", "_, v := range vs", "k := range m", "range ch", "k, v = range m", "i := range 10", ";;"}
